@@ -230,3 +230,51 @@ Fixpoint outs_x (s : state) (h : list (op Arg)) : list (outx Arg Res) :=
 End EmitterX.
 Arguments emit_loop_x {Arg Res}. Arguments emit_x {Arg Res}. Arguments step_x {Arg Res}.
 Arguments exec_x {Arg Res}. Arguments outs_x {Arg Res}.
+
+(* ---------------- ProgressReporter: accessors, keyword arguments, message callbacks ----------------
+   is_complete():  `return self._value >= self._value_max` *)
+Definition is_complete (s : pstate) : bool := p_value s >=? p_max s.
+
+(* increment and set_complete (both take **kwargs) hand their keyword arguments to _set_value, which
+   forwards them to BOTH emits (progress and complete); the value setter passes none, the value_max
+   setter and reset() emit nothing.  [K] = a keyword dictionary, [nokw] = the empty one. *)
+Section Kwargs.
+Variable K : Type.
+Variable nokw : K.
+Record popk := mkpk { pk_op : pop; pk_kw : K }.
+
+Definition set_value_k (s : pstate) (v : Z) (kw : K) : pstate * list (pev * K) :=
+  let d := if v <? p_max s then false else p_done s in
+  if negb d && (v >=? p_max s)
+  then (mkp v (p_max s) true, [(EvProgress v (p_max s), kw); (EvComplete, kw)])
+  else (mkp v (p_max s) d, [(EvProgress v (p_max s), kw)]).
+
+Definition pstep_k (s : pstate) (o : popk) : pstate * list (pev * K) :=
+  match pk_op o with
+  | PInc => set_value_k s (p_value s + 1) (pk_kw o)
+  | PSetValue v => set_value_k s v nokw
+  | PSetComplete => set_value_k s (p_max s) (pk_kw o)
+  | PSetMax m => (set_max s m, [])
+  | PReset m => (fst (pstep s (PReset m)), [])
+  end.
+
+(* the keyword arguments the events of operation o must carry *)
+Definition kw_of (o : popk) : K :=
+  match pk_op o with PInc | PSetComplete => pk_kw o | _ => nokw end.
+
+(* set_progress_message(msg) / set_complete_message(msg) connect, with sender=self,
+     on_progress: kwargs['end'] = None if value == value_max else '\r'; _default_on_progress(...),
+                  which prints nothing when value_max == 0 or value > value_max;
+     on_complete: prints the message.
+   A printed line is abstracted to: which message, the keyword the message's format field shows
+   ([look kw]), and for a progress line whether it ends the line (value == value_max). *)
+Inductive ptok := TokProgress (k0 : option Z) (newline : bool) | TokComplete (k0 : option Z).
+Variable look : K -> option Z.
+Definition printed (e : pev * K) : list ptok :=
+  match fst e with
+  | EvProgress v m => if m =? 0 then [] else if v <=? m then [TokProgress (look (snd e)) (v =? m)] else []
+  | EvComplete => [TokComplete (look (snd e))]
+  end.
+End Kwargs.
+Arguments mkpk {K}. Arguments pk_op {K}. Arguments pk_kw {K}. Arguments set_value_k {K}.
+Arguments pstep_k {K}. Arguments kw_of {K}. Arguments printed {K}.
